@@ -392,7 +392,8 @@ HLconvert(int32 aid, int32 block_length, int32 number_blocks)
     uint16 special_tag;                                 /* special version of this tag */
     int32  file_id;                                     /* file ID for the access record */
     uint8  local_ptbuf[16];
-    int32  old_posn; /* position in the access element */
+    int32  old_posn;           /* position in the access element */
+    int    new_info  = FALSE; /* whether the special info was allocated here */
     int    ret_value = SUCCEED;
 
     /* clear error stack */
@@ -466,6 +467,7 @@ HLconvert(int32 aid, int32 block_length, int32 number_blocks)
     access_rec->special_info = malloc((uint32)sizeof(linkinfo_t));
     if (!access_rec->special_info)
         HGOTO_ERROR(DFE_NOSPACE, FAIL);
+    new_info = TRUE;
 
     /* fill in special info struct */
     info                = (linkinfo_t *)access_rec->special_info;
@@ -517,9 +519,11 @@ HLconvert(int32 aid, int32 block_length, int32 number_blocks)
 
 done:
     if (ret_value == FAIL) { /* Error condition cleanup */
-        if (access_rec != NULL) {
+        /* the access record stays owned by the caller's AID: only undo what
+           was allocated here, never release the record or foreign info */
+        if (access_rec != NULL && new_info) {
             free(access_rec->special_info);
-            HIrelease_accrec_node(access_rec);
+            access_rec->special_info = NULL;
         }
     }
 
